@@ -44,6 +44,19 @@
 // `if v, err := f(args); err == nil { body }` (no else), translated to a match whose `some` arm is the body; spec mode
 // `block`: one `if` STATEMENT of a function returning `error` is translated to Option String (none = control falls out
 // of the statement, some "ErrX" = it returns that package-level error variable).
+//
+// Cache key / hop-by-hop (added): spec `str: true` makes the string literals and string locals of a function Rv.Str;
+// `leafkinds` gives the kind of a leaf; `until: v` translates the body up to the first top-level assignment to v and
+// returns v. On Str: `+` / `+=` is `++`; TRUSTED library meanings (the model's transcriptions of the standard library):
+// strings.ToLower = Rv.toLower, path.Clean = Rv.Key.clean, strings.HasSuffix = Rv.Key.endsWith, strings.TrimSpace =
+// Rv.trimSpace, strings.Split / strings.SplitSeq with a one-byte separator = Rv.splitOn, http.CanonicalHeaderKey =
+// Rv.Headers.canonKey; fmt.Sprintf with a literal format made ONLY of text, %s (Str), %d (Int, decimal) and %% is the
+// concatenation of its pieces, any other verb or flag is refused. `[]string{...}` literals are List Str. Range loops
+// also run over a list-of-strings EXPRESSION (evaluated once, before the loop) and over strings.SplitSeq (one
+// variable = the value), and may be NESTED (the inner loop is its own auxiliary function; a return inside it leaves
+// both). `hdrparam: h`: the http.Header parameter h the function mutates is a loop-carriable local of kind Hdr
+// (Rv.Headers.Hdr) initialised from its binder and is the result; `h.Values(k)` = values h (canonKey k), the statement
+// `h.Del(k)` = `h := del h (canonKey k)` (http.Header canonicalises the name it is given); other mutations are refused.
 package main
 
 import (
@@ -65,27 +78,31 @@ import (
 )
 
 type Spec struct {
-	File     string            `json:"file"`    // path below the repo root
-	Recv     string            `json:"recv"`    // receiver type name ("" for a plain function)
-	Func     string            `json:"func"`    // Go function name
-	Lean     string            `json:"lean"`    // Lean definition name
-	Binders  []string          `json:"binders"` // Lean binders: receiver first (if any), then one per Go parameter, then extras
-	Ret      string            `json:"ret"`     // Lean result type (inside Option)
-	Results  []string          `json:"results"` // per Go result: "val" | "err" (error => Bool: nil = true)
-	Leaves   map[string]string `json:"leaves"`  // canonical Go expression => Lean term; a leading '?' marks an Option-valued term
-	Ignore   []string          `json:"ignore"`  // regexps of expression statements without influence on the result
-	Effects  map[string]string `json:"effects"` // regexp of a statement => "name := leanTerm" (sets a pseudo result)
-	FuncLit  bool              `json:"funclit"` // translate the first function literal inside the body (middleware closures)
-	Pseudo   map[string]string `json:"pseudo"`  // pseudo result variables with their initial Lean value (returned by bare return / end)
-	Expr     string            `json:"expr"`    // if set: translate only the right-hand side of the first assignment to this variable
-	Cond     string            `json:"cond"`    // if set: translate only the condition of the first `if` whose printed condition matches this regexp
-	Block    string            `json:"block"`   // if set: translate only the first `if` STATEMENT whose printed condition matches this regexp, as a function to Option String: none = control falls out of the statement, some "ErrX" / some "nil" = it returns that error variable / nil
-	Doc      string            `json:"doc"`
-	Group    string            `json:"group"`    // output module: Rv/Generated/Src<Group>.lean
-	ErrMode  string            `json:"errmode"`  // "" (error => Bool) | "name" ((T, error) => Except String T, the NAME of the error variable)
-	Structs  map[string]string `json:"structs"`  // Go struct type name => Lean structure (composite literals)
-	Imports  []string          `json:"imports"`  // extra Lean imports of the generated module
-	MapOrder map[string]string `json:"maporder"` // Go map variable ranged over => name of the Lean binder (List (K × V)) giving the iteration order
+	File      string            `json:"file"`    // path below the repo root
+	Recv      string            `json:"recv"`    // receiver type name ("" for a plain function)
+	Func      string            `json:"func"`    // Go function name
+	Lean      string            `json:"lean"`    // Lean definition name
+	Binders   []string          `json:"binders"` // Lean binders: receiver first (if any), then one per Go parameter, then extras
+	Ret       string            `json:"ret"`     // Lean result type (inside Option)
+	Results   []string          `json:"results"` // per Go result: "val" | "err" (error => Bool: nil = true)
+	Leaves    map[string]string `json:"leaves"`  // canonical Go expression => Lean term; a leading '?' marks an Option-valued term
+	Ignore    []string          `json:"ignore"`  // regexps of expression statements without influence on the result
+	Effects   map[string]string `json:"effects"` // regexp of a statement => "name := leanTerm" (sets a pseudo result)
+	FuncLit   bool              `json:"funclit"` // translate the first function literal inside the body (middleware closures)
+	Pseudo    map[string]string `json:"pseudo"`  // pseudo result variables with their initial Lean value (returned by bare return / end)
+	Expr      string            `json:"expr"`    // if set: translate only the right-hand side of the first assignment to this variable
+	Cond      string            `json:"cond"`    // if set: translate only the condition of the first `if` whose printed condition matches this regexp
+	Block     string            `json:"block"`   // if set: translate only the first `if` STATEMENT whose printed condition matches this regexp, as a function to Option String: none = control falls out of the statement, some "ErrX" / some "nil" = it returns that error variable / nil
+	Doc       string            `json:"doc"`
+	Group     string            `json:"group"`     // output module: Rv/Generated/Src<Group>.lean
+	ErrMode   string            `json:"errmode"`   // "" (error => Bool) | "name" ((T, error) => Except String T, the NAME of the error variable)
+	Structs   map[string]string `json:"structs"`   // Go struct type name => Lean structure (composite literals)
+	Imports   []string          `json:"imports"`   // extra Lean imports of the generated module
+	StrMode   bool              `json:"str"`       // string literals and string locals of this function are Rv.Str (one Char per byte), not Lean String
+	LeafKinds map[string]string `json:"leafkinds"` // canonical Go expression of a leaf => its kind ("Str", "Int", "Bool", "Hdr", "Strs")
+	HdrParam  string            `json:"hdrparam"`  // a Go parameter of type http.Header that the function mutates: a local of kind Hdr initialised from its binder, and the result of the translated function
+	Until     string            `json:"until"`     // translate the body up to and including the first top-level assignment to this variable, and return it
+	MapOrder  map[string]string `json:"maporder"`  // Go map variable ranged over => name of the Lean binder (List (K × V)) giving the iteration order
 }
 
 var fset = token.NewFileSet()
@@ -328,8 +345,10 @@ const (
 	kStrs   = "Strs"   // []string produced by strings.SplitN (List Str)
 	kInt    = "Int"
 	kBool   = "Bool"
-	kRune   = "Rune" // rune (range variable, rune parameter): arithmetic allowed (int32, cannot overflow on code points)
-	kByte   = "Byte" // byte obtained by indexing a string: comparisons only (uint8 arithmetic wraps around)
+	kRune   = "Rune"   // rune (range variable, rune parameter): arithmetic allowed (int32, cannot overflow on code points)
+	kHdr    = "Hdr"    // http.Header as Rv.Headers.Hdr (list of (canonical name, value) pairs)
+	kStrSeq = "StrSeq" // iter.Seq[string] produced by strings.SplitSeq (ranged over with ONE variable, the value)
+	kByte   = "Byte"   // byte obtained by indexing a string: comparisons only (uint8 arithmetic wraps around)
 )
 
 type loopCtx struct {
@@ -345,8 +364,10 @@ func leanTypeOfKind(k string) string {
 		return "Str"
 	case kString:
 		return "String"
-	case kStrs:
+	case kStrs, kStrSeq:
 		return "List Str"
+	case kHdr:
+		return "Rv.Headers.Hdr"
 	case kInt:
 		return "Int"
 	case kBool:
@@ -486,6 +507,9 @@ func (t *tr) expr(e ast.Expr) comp {
 			if err != nil {
 				fail("%s: string literal %s", t.spec.Lean, x.Value)
 			}
+			if t.spec.StrMode {
+				return pure(strLitBytes(s))
+			}
 			return pure(leanString(s))
 		case token.CHAR:
 			return pure(charLit(t.charValue(x)))
@@ -580,8 +604,16 @@ func (t *tr) expr(e ast.Expr) comp {
 		kx, ky := t.kindOf(x.X), t.kindOf(x.Y)
 		if kx == kStr || ky == kStr {
 			// strings of kind Str: only (in)equality, a literal operand becomes a list of bytes
+			if x.Op == token.ADD {
+				// concatenation of two strings of kind Str
+				if kx != kStr || ky != kStr {
+					fail("%s (%s): `%s`: + with an operand that is not known to be a string of kind Str", t.spec.Lean, t.spec.File, show(x))
+				}
+				a, b := t.strOperand(x.X), t.strOperand(x.Y)
+				return join2(a, b, func(p, q string) string { return "(" + p + " ++ " + q + ")" })
+			}
 			if x.Op != token.EQL && x.Op != token.NEQ {
-				fail("%s (%s): operator %s on strings in `%s` (only == and != are supported)", t.spec.Lean, t.spec.File, x.Op, show(x))
+				fail("%s (%s): operator %s on strings in `%s` (only ==, != and + are supported)", t.spec.Lean, t.spec.File, x.Op, show(x))
 			}
 			a, b := t.strOperand(x.X), t.strOperand(x.Y)
 			op := " == "
@@ -678,6 +710,141 @@ func (t *tr) expr(e ast.Expr) comp {
 	}
 	fail("%s (%s): cannot translate expression `%s` (canonical form `%s`): no leaf rule and not in the supported subset", t.spec.Lean, t.spec.File, show(e), t.canon(e))
 	return comp{}
+}
+
+// library functions on strings of kind Str, mapped onto the model's transcriptions of the Go standard library. TRUSTED
+// leaf meanings (each is what the named Lean function's docstring says about the Go function):
+//
+//	strings.ToLower(x)        = Rv.toLower x          (ASCII lower-casing: equal to Go's on ASCII input)
+//	path.Clean(x)             = Rv.Key.clean x        (the model's port of path.Clean)
+//	strings.HasSuffix(x, lit) = Rv.Key.endsWith x lit
+//	strings.TrimSpace(x)      = Rv.trimSpace x        (ASCII white space)
+//	strings.Split(x, "c")     = Rv.splitOn 'c' x      (one-byte separator)
+//	http.CanonicalHeaderKey(x)= Rv.Headers.canonKey x
+//	fmt.Sprintf(f, args...)   for f made ONLY of literal text, %s (Str argument), %d (Int argument, decimal) and %%
+func (t *tr) strLibCall(fn string, x *ast.CallExpr) (comp, bool) {
+	pkgOf := map[string]string{"strings.SplitSeq": "strings", "strings.ToLower": "strings", "strings.HasSuffix": "strings", "strings.TrimSpace": "strings", "strings.Split": "strings",
+		"path.Clean": "path", "fmt.Sprintf": "fmt", "http.CanonicalHeaderKey": "net/http"}
+	pk, ok := pkgOf[fn]
+	if !ok {
+		return comp{}, false
+	}
+	local := strings.SplitN(fn, ".", 2)[0]
+	if !t.importsAs(pk, local) || t.locals[local] || t.plean[local] != "" {
+		return comp{}, false
+	}
+	where := fmt.Sprintf("%s (%s): `%s`", t.spec.Lean, t.spec.File, show(x))
+	strArg := func(e ast.Expr) comp {
+		if _, isLit := e.(*ast.BasicLit); !isLit && t.kindOf(e) != kStr {
+			fail("%s: the argument `%s` is not known to be a string of kind Str", where, show(e))
+		}
+		return t.strOperand(e)
+	}
+	unary := func(lean string) (comp, bool) {
+		if len(x.Args) != 1 {
+			fail("%s: one argument expected", where)
+		}
+		a := strArg(x.Args[0])
+		a.val = "(" + lean + " " + a.val + ")"
+		return a, true
+	}
+	switch fn {
+	case "strings.ToLower":
+		return unary("Rv.toLower")
+	case "path.Clean":
+		return unary("Rv.Key.clean")
+	case "strings.TrimSpace":
+		return unary("Rv.trimSpace")
+	case "http.CanonicalHeaderKey":
+		return unary("Rv.Headers.canonKey")
+	case "strings.HasSuffix":
+		if len(x.Args) != 2 {
+			fail("%s: two arguments expected", where)
+		}
+		return join2(strArg(x.Args[0]), strArg(x.Args[1]), func(p, q string) string { return "(Rv.Key.endsWith " + p + " " + q + ")" }), true
+	case "strings.Split", "strings.SplitSeq": // SplitSeq yields the substrings Split returns, in the same order
+		if len(x.Args) != 2 {
+			fail("%s: two arguments expected", where)
+		}
+		sep, okSep := x.Args[1].(*ast.BasicLit)
+		if len(x.Args) != 2 || !okSep || sep.Kind != token.STRING {
+			fail("%s: only strings.Split(x, \"<one byte>\") is supported", where)
+		}
+		sv, err := strconv.Unquote(sep.Value)
+		if err != nil || len(sv) != 1 || sv[0] >= 128 {
+			fail("%s: the separator must be a single ASCII byte", where)
+		}
+		a := strArg(x.Args[0])
+		a.val = "(Rv.splitOn " + charLit(rune(sv[0])) + " " + a.val + ")"
+		return a, true
+	case "fmt.Sprintf":
+		if len(x.Args) < 1 {
+			fail("%s: no format", where)
+		}
+		fl, okf := x.Args[0].(*ast.BasicLit)
+		if !okf || fl.Kind != token.STRING {
+			fail("%s: the format must be a string literal", where)
+		}
+		f, err := strconv.Unquote(fl.Value)
+		if err != nil {
+			fail("%s: format literal", where)
+		}
+		c := comp{}
+		parts := []string{}
+		lit := ""
+		flush := func() {
+			if lit != "" {
+				parts = append(parts, strLitBytes(lit))
+				lit = ""
+			}
+		}
+		argi := 1
+		for i := 0; i < len(f); i++ {
+			if f[i] != '%' {
+				lit += string(f[i])
+				continue
+			}
+			if i+1 >= len(f) {
+				fail("%s: the format ends in a lone %%", where)
+			}
+			i++
+			switch f[i] {
+			case '%':
+				lit += "%"
+			case 's', 'd':
+				if argi >= len(x.Args) {
+					fail("%s: more verbs than arguments", where)
+				}
+				flush()
+				a := x.Args[argi]
+				argi++
+				if f[i] == 's' {
+					ac := strArg(a)
+					c.pre = append(c.pre, ac.pre...)
+					parts = append(parts, ac.val)
+				} else {
+					if t.kindOf(a) != kInt {
+						fail("%s: the %%d argument `%s` is not known to be an integer", where, show(a))
+					}
+					ac := t.expr(a)
+					c.pre = append(c.pre, ac.pre...)
+					parts = append(parts, "(Rv.intToDec "+ac.val+")")
+				}
+			default:
+				fail("%s: verb or flag `%%%c` (only literal text, %%s, %%d and %%%% are supported)", where, f[i])
+			}
+		}
+		flush()
+		if argi != len(x.Args) {
+			fail("%s: more arguments than verbs", where)
+		}
+		if len(parts) == 0 {
+			parts = []string{"([] : Str)"}
+		}
+		c.val = "(" + strings.Join(parts, " ++ ") + ")"
+		return c, true
+	}
+	return comp{}, false
 }
 
 // is the expression a variable (local or parameter) or a field path below one?
@@ -989,6 +1156,11 @@ func (t *tr) runeAsInt(e ast.Expr) comp {
 
 // the kind of a Go expression as far as the string subset needs it; "" = unknown
 func (t *tr) kindOf(e ast.Expr) string {
+	if k, ok := t.spec.LeafKinds[t.canon(e)]; ok {
+		if _, isLeaf := t.spec.Leaves[t.canon(e)]; isLeaf {
+			return k
+		}
+	}
 	switch x := e.(type) {
 	case *ast.ParenExpr:
 		return t.kindOf(x.X)
@@ -1006,6 +1178,9 @@ func (t *tr) kindOf(e ast.Expr) string {
 		case token.CHAR:
 			return kRune
 		case token.STRING:
+			if t.spec.StrMode {
+				return kStr
+			}
 			return kString
 		}
 	case *ast.IndexExpr:
@@ -1014,6 +1189,10 @@ func (t *tr) kindOf(e ast.Expr) string {
 			return kByte
 		case kStrs:
 			return kStr
+		}
+	case *ast.CompositeLit:
+		if t.spec.StrMode && show(x.Type) == "[]string" {
+			return kStrs
 		}
 	case *ast.SliceExpr:
 		if t.kindOf(x.X) == kStr {
@@ -1035,6 +1214,9 @@ func (t *tr) kindOf(e ast.Expr) string {
 			if (a == kInt || a == kRune) && (b == kInt || b == kRune) {
 				return kInt
 			}
+			if x.Op == token.ADD && a == kStr && b == kStr {
+				return kStr
+			}
 		}
 	case *ast.CallExpr:
 		fn := show(x.Fun)
@@ -1046,6 +1228,17 @@ func (t *tr) kindOf(e ast.Expr) string {
 				return kInt
 			}
 		case fn == "strings.SplitN":
+			return kStrs
+		case t.spec.StrMode && (fn == "strings.ToLower" || fn == "path.Clean" || fn == "fmt.Sprintf" || fn == "strings.TrimSpace" || fn == "http.CanonicalHeaderKey"):
+			return kStr
+		case t.spec.StrMode && fn == "strings.HasSuffix":
+			return kBool
+		case t.spec.StrMode && fn == "strings.Split":
+			return kStrs
+		case t.spec.StrMode && fn == "strings.SplitSeq":
+			return kStrSeq
+		}
+		if sel, ok := x.Fun.(*ast.SelectorExpr); ok && sel.Sel.Name == "Values" && len(x.Args) == 1 && t.kindOf(sel.X) == kHdr {
 			return kStrs
 		}
 		if id, ok := x.Fun.(*ast.Ident); ok {
@@ -1059,6 +1252,20 @@ func (t *tr) kindOf(e ast.Expr) string {
 
 // T{...} for a struct type of the package mapped to a Lean structure by the spec; absent fields take their zero value
 func (t *tr) compositeLit(x *ast.CompositeLit) comp {
+	if t.spec.StrMode && show(x.Type) == "[]string" {
+		c := comp{}
+		els := []string{}
+		for _, el := range x.Elts {
+			if _, isKV := el.(*ast.KeyValueExpr); isKV {
+				fail("%s (%s): slice literal `%s` with keys", t.spec.Lean, t.spec.File, show(x))
+			}
+			ec := t.strOperand(el)
+			c.pre = append(c.pre, ec.pre...)
+			els = append(els, ec.val)
+		}
+		c.val = "([" + strings.Join(els, ", ") + "] : List Str)"
+		return c
+	}
 	tn := show(x.Type)
 	lean, ok := t.spec.Structs[tn]
 	st := t.pkg.structs[tn]
@@ -1223,6 +1430,20 @@ func (t *tr) call(x *ast.CallExpr) comp {
 			c = join2(c, t.expr(a), func(p, q string) string { return "(" + fn + " " + p + " " + q + ")" })
 		}
 		return c
+	}
+	if t.spec.StrMode {
+		if c, ok := t.strLibCall(fn, x); ok {
+			return c
+		}
+		// h.Values(name) on a header of kind Hdr: http.Header canonicalises the name it is given
+		if sel, ok := x.Fun.(*ast.SelectorExpr); ok && sel.Sel.Name == "Values" && len(x.Args) == 1 && t.kindOf(sel.X) == kHdr {
+			if _, isLit := x.Args[0].(*ast.BasicLit); !isLit && t.kindOf(x.Args[0]) != kStr {
+				fail("%s (%s): `%s`: the name is not known to be a string of kind Str", t.spec.Lean, t.spec.File, show(x))
+			}
+			return join2(t.expr(sel.X), t.strOperand(x.Args[0]), func(p, q string) string {
+				return "(Rv.Headers.values " + p + " (Rv.Headers.canonKey " + q + "))"
+			})
+		}
 	}
 	if fn == "len" && len(x.Args) == 1 && !t.locals["len"] {
 		k := t.kindOf(x.Args[0])
@@ -1582,6 +1803,21 @@ func (t *tr) stmts(list []ast.Stmt) string {
 	case *ast.RangeStmt:
 		return t.rangeLoop(x, rest)
 	case *ast.ExprStmt:
+		if call, ok := x.X.(*ast.CallExpr); ok && len(call.Args) == 1 {
+			if sel, ok := call.Fun.(*ast.SelectorExpr); ok && sel.Sel.Name == "Del" {
+				if id, ok := sel.X.(*ast.Ident); ok && t.locals[id.Name] && t.kinds[id.Name] == kHdr {
+					// h.Del(name): http.Header canonicalises the name; the header variable takes the new value
+					if _, isLit := call.Args[0].(*ast.BasicLit); !isLit && t.kindOf(call.Args[0]) != kStr {
+						fail("%s (%s): `%s`: the name is not known to be a string of kind Str", t.spec.Lean, t.spec.File, show(x))
+					}
+					k := t.strOperand(call.Args[0])
+					t.used[id.Name] = true
+					return k.andThen(func(kv string) string {
+						return "let " + mangle(id.Name) + " := Rv.Headers.del " + mangle(id.Name) + " (Rv.Headers.canonKey " + kv + ")\n  " + t.stmts(rest)
+					})
+				}
+			}
+		}
 		txt := show(x)
 		for re, eff := range t.spec.Effects {
 			if regexp.MustCompile(re).MatchString(txt) {
@@ -1979,6 +2215,15 @@ func assignedIn(list []ast.Stmt) (assigned map[string]bool, declared map[string]
 				if id, ok := a.X.(*ast.Ident); ok {
 					assigned[id.Name] = true
 				}
+			case *ast.ExprStmt:
+				// h.Del(..) / h.Set(..) / h.Add(..) as a statement changes the variable h
+				if call, ok := a.X.(*ast.CallExpr); ok {
+					if sel, ok := call.Fun.(*ast.SelectorExpr); ok && (sel.Sel.Name == "Del" || sel.Sel.Name == "Set" || sel.Sel.Name == "Add") {
+						if id, ok := sel.X.(*ast.Ident); ok {
+							assigned[id.Name] = true
+						}
+					}
+				}
 			case *ast.DeclStmt:
 				if gd, ok := a.Decl.(*ast.GenDecl); ok {
 					for _, sp := range gd.Specs {
@@ -1989,10 +2234,8 @@ func assignedIn(list []ast.Stmt) (assigned map[string]bool, declared map[string]
 						}
 					}
 				}
-			case *ast.RangeStmt:
-				other = "a nested loop"
 			case *ast.ForStmt:
-				other = "a nested loop"
+				other = "a nested 3-clause loop"
 			case *ast.FuncLit:
 				other = "a function literal"
 			case *ast.UnaryExpr:
@@ -2012,15 +2255,17 @@ func assignedIn(list []ast.Stmt) (assigned map[string]bool, declared map[string]
 // literal (whose iteration ORDER becomes a parameter of the translated function).
 func (t *tr) rangeLoop(x *ast.RangeStmt, rest []ast.Stmt) string {
 	where := fmt.Sprintf("%s (%s)", t.spec.Lean, t.spec.File)
-	if t.loop != nil {
-		fail("%s: nested loop `%s`", where, strings.SplitN(show(x), "{", 2)[0])
-	}
+	outerLoop := t.loop // a range loop inside a range loop: the inner one is its own auxiliary function
 	if x.Tok != token.DEFINE {
 		fail("%s: `%s`: the range variables must be declared by the loop (:=)", where, strings.SplitN(show(x), "{", 2)[0])
 	}
 	src, ok := x.X.(*ast.Ident)
+	srcKind := t.kindOf(x.X)
 	if !ok {
-		fail("%s: range over `%s` (only a variable can be ranged over)", where, show(x.X))
+		if srcKind != kStrs && srcKind != kStrSeq {
+			fail("%s: range over `%s` (only a variable or a list-of-strings expression can be ranged over)", where, show(x.X))
+		}
+		src = ast.NewIdent("") // no variable: nothing the body could assign
 	}
 	keyName, valName := "", ""
 	if x.Key != nil {
@@ -2035,10 +2280,22 @@ func (t *tr) rangeLoop(x *ast.RangeStmt, rest []ast.Stmt) string {
 	if valName == "_" {
 		valName = ""
 	}
-	isMap := false
+	isMap, isList := false, false
 	elemTy, srcTerm := "Char", ""
 	keyKind, valKind := kInt, kRune
+	var srcPre []bind
 	switch {
+	case srcKind == kStrs || srcKind == kStrSeq:
+		// a list of strings (a []string value, or the sequence strings.SplitSeq yields): evaluated once, before the loop
+		if srcKind == kStrSeq {
+			if x.Value != nil {
+				fail("%s: range over an iterator with two variables", where)
+			}
+			keyName, valName = "", keyName // the single variable of `for v := range seq` is the VALUE
+		}
+		c := t.expr(x.X)
+		srcPre, srcTerm = c.pre, c.val
+		isList, elemTy, valKind = true, "Str", kStr
 	case (t.locals[src.Name] || t.plean[src.Name] != "") && t.kinds[src.Name] == kStr:
 		c := t.expr(src)
 		srcTerm = c.val
@@ -2101,7 +2358,7 @@ func (t *tr) rangeLoop(x *ast.RangeStmt, rest []ast.Stmt) string {
 	loopName := fmt.Sprintf("%s_loop%d", t.spec.Lean, t.nloops)
 	savedLocals, savedUsed := t.snapshot(), t.used
 	t.used = map[string]bool{}
-	lc := &loopCtx{callTok: "\x00CALL\x00", tailVar: "rest_", carried: carried}
+	lc := &loopCtx{callTok: fmt.Sprintf("\x00CALL%d\x00", t.nloops), tailVar: "rest_", carried: carried}
 	headPat := "_"
 	if isMap {
 		kp, vp := "_", "_"
@@ -2120,13 +2377,13 @@ func (t *tr) rangeLoop(x *ast.RangeStmt, rest []ast.Stmt) string {
 			lc.index = mangle(keyName)
 		}
 		if valName != "" {
-			t.declareK(valName, kRune)
+			t.declareK(valName, valKind)
 			headPat = mangle(valName)
 		}
 	}
 	t.loop = lc
 	bodyTerm := t.stmts(body)
-	t.loop = nil
+	t.loop = outerLoop
 	bodyUsed := t.used
 	t.used = savedUsed
 	t.restore(savedLocals)
@@ -2139,7 +2396,7 @@ func (t *tr) rangeLoop(x *ast.RangeStmt, rest []ast.Stmt) string {
 	bn := t.binderNames()
 	for i, b := range t.spec.Binders {
 		for g, l := range t.plean {
-			if l == bn[i] && bodyUsed[g] {
+			if l == bn[i] && bodyUsed[g] && !t.locals[g] { // a parameter shadowed by a local of the same name is not read
 				fixedB, fixedA = append(fixedB, b), append(fixedA, bn[i])
 				t.used[g] = true
 				break
@@ -2178,6 +2435,9 @@ func (t *tr) rangeLoop(x *ast.RangeStmt, rest []ast.Stmt) string {
 	bodyTerm = strings.ReplaceAll(bodyTerm, lc.callTok, call)
 	pos := fset.Position(x.Pos())
 	caveat := "One list element = one BYTE of the string; Go's range decodes RUNES: the translation is the Go loop exactly on ASCII input (every byte < 128)."
+	if isList {
+		caveat = "The list of strings is evaluated once, before the loop (Go evaluates the range expression once)."
+	}
 	if isMap {
 		caveat = "Go iterates a map in an UNSPECIFIED order: `rest_` starts as the order given to the enclosing function, about which nothing may be assumed but that it is a permutation of the table."
 	}
@@ -2195,7 +2455,14 @@ func (t *tr) rangeLoop(x *ast.RangeStmt, rest []ast.Stmt) string {
 	}
 	after := t.stmts(rest)
 	retArm := "some v_"
-	return "Option.bind (" + start + ") (fun r_ => match r_ with\n  | Rv.SrcStr.Loop.ret v_ => " + retArm + "\n  | Rv.SrcStr.Loop.done " + t.carriedTupleOf(carried) + " =>\n  " + after + ")"
+	if outerLoop != nil {
+		retArm = "some (Rv.SrcStr.Loop.ret v_)" // a return inside the inner loop leaves the outer loop as well
+	}
+	out := "Option.bind (" + start + ") (fun r_ => match r_ with\n  | Rv.SrcStr.Loop.ret v_ => " + retArm + "\n  | Rv.SrcStr.Loop.done " + t.carriedTupleOf(carried) + " =>\n  " + after + ")"
+	for i := len(srcPre) - 1; i >= 0; i-- {
+		out = "Option.bind (" + srcPre[i].term + ") (fun " + srcPre[i].name + " => " + out + ")"
+	}
+	return out
 }
 
 func (t *tr) carriedTupleOf(carried []string) string {
@@ -2654,6 +2921,17 @@ func translate(g *genOut, pkg *pkgInfo, sp *Spec, key string) {
 		t.pseudo = append(t.pseudo, n)
 		pre += "let " + n + " := " + sp.Pseudo[n] + "\n  "
 	}
+	if sp.HdrParam != "" {
+		// the http.Header parameter the function mutates: a local of kind Hdr, initialised from its binder; its final
+		// value is the result of the translated function
+		b := t.plean[sp.HdrParam]
+		if b == "" || show(paramTypes[sp.HdrParam]) != "http.Header" || (ftype.Results != nil && len(ftype.Results.List) != 0) || len(t.pseudo) != 0 {
+			fail("%s: hdrparam %s must be a parameter of type http.Header of a function without results (and without pseudo results)", sp.Lean, sp.HdrParam)
+		}
+		t.declareK(sp.HdrParam, kHdr)
+		t.pseudo = append(t.pseudo, mangle(sp.HdrParam))
+		pre += "let " + mangle(sp.HdrParam) + " := " + b + "\n  "
+	}
 	g.done[key] = "Rv.Generated.Src." + sp.Lean // before the body: recursion is refused by Lean anyway
 	var bodyTerm string
 	switch {
@@ -2702,7 +2980,21 @@ func translate(g *genOut, pkg *pkgInfo, sp *Spec, key string) {
 		}
 		bodyTerm = t.expr(cond).render()
 	default:
-		bodyTerm = pre + t.stmts(body.List)
+		list := body.List
+		if sp.Until != "" {
+			cut := -1
+			for i, st := range list {
+				if a, ok := st.(*ast.AssignStmt); ok && len(a.Lhs) == 1 && show(a.Lhs[0]) == sp.Until {
+					cut = i
+					break
+				}
+			}
+			if cut < 0 {
+				fail("%s: no top-level assignment to `%s` in %s (until)", sp.Lean, sp.Until, key)
+			}
+			list = append(append([]ast.Stmt{}, list[:cut+1]...), &ast.ReturnStmt{Results: []ast.Expr{ast.NewIdent(sp.Until)}})
+		}
+		bodyTerm = pre + t.stmts(list)
 	}
 	pos := fset.Position(fn.Pos())
 	rel := sp.File
